@@ -613,6 +613,33 @@ func c08Families(tier string) []explore.Family {
 			}
 		}})
 	}
+	// literals denote themselves: every string of <=3|4 symbols over {a, b, space, tab, newline, |, :} as a
+	// double- and single-quoted literal, as a filter argument and as a bracket key, all in one process
+	litAlpha := []string{"a", " ", "\t", "\n", "b", "|", ":"}
+	litN := 3
+	if thorough {
+		litN = 4
+	}
+	fams = append(fams, explore.Family{Name: "string-literals", Count: seqCount(len(litAlpha), litN), Run: func(i int64, r *explore.Rec) {
+		lit := joinSyms(litAlpha, seqAt(len(litAlpha), i), "")
+		for _, form := range []struct{ src, want string }{
+			{`{{ "` + lit + `" }}`, lit},
+			{`{{ '` + lit + `' }}`, lit},
+			{`{{ "<" | append: "` + lit + `" | append: '>' }}`, "<" + lit + ">"},
+			{`{{ keyed["` + lit + `"] }}`, "K" + lit},
+			{`{% if "` + lit + `" == lit %}same{% endif %}`, "same"},
+			{`{% assign v = '` + lit + `' %}[{{ v }}]`, "[" + lit + "]"},
+		} {
+			r.Eval()
+			r.Transition()
+			o := Render(c08.eng, form.src, map[string]any{"keyed": map[string]any{lit: "K" + lit}, "lit": lit})
+			if o.Panic != nil || o.Err != nil || o.Out != form.want {
+				r.Violation("literal-does-not-denote-itself", map[string]any{"template": form.src}, strconv.Quote(form.want), o.String())
+			}
+		}
+		r.Trace()
+		r.Class("string-literal/" + strconv.Itoa(len(lit)))
+	}})
 	// dot vs bracket, quote style
 	eqs := [][]string{
 		{"{{ m.b }}", `{{ m["b"] }}`, `{{ m['b'] }}`, "{{ m[s] }}"},
